@@ -15,6 +15,34 @@ def _worker(args):
     return (r["error_num"], r["data"]) if r else (-1, st.encode())
 
 
+def undelivered_phase(ctx, cr, fails, dist):
+    """Replies that cannot be delivered: only an undelivered SUCCESS gives the record back; an undelivered 'replayed'
+    (or expired / unauthorized ...) reply must leave the record of the earlier successful decode in place."""
+    for kind in ("replayed", "unauthorized", "success-then"):
+        cr.set_clock(1500000000)
+        r, _ = rig.encode(cr.d.sock, uid=11, gid=12, auth_uid=(77 if kind == "unauthorized" else ANY), data=b"undelivered " + kind.encode())
+        cred = r["data"]
+        du = 77 if kind == "unauthorized" else 5
+        if kind == "success-then":
+            rig.decode_undeliverable(cr.d.sock, cred, uid=du, gid=1)      # success that cannot be delivered: rolled back
+            cr.o.ask("DECF %s %d 1 %d - S,S,S,S,S" % (cred.hex(), du, cr.now))
+            d, m, diff = cr.decode_both(cred, uid=du, gid=1)
+            want = 0
+        else:
+            d0, m0, diff0 = cr.decode_both(cred, uid=du, gid=1)            # decoded once, delivered
+            for _ in range(3):
+                # a second presentation (replayed), resp. a refused one, whose reply cannot be delivered
+                rig.decode_undeliverable(cr.d.sock, cred, uid=(du if kind == "replayed" else 78), gid=1)
+            d, m, diff = cr.decode_both(cred, uid=du, gid=1)
+            want = 17
+        ctx.count(("undelivered", kind))
+        dist["undelivered"] = dist.get("undelivered", 0) + 1
+        if d is None or d["error_num"] != want:
+            fails.append({"why": "after %s reply/replies that could not be delivered, the next decode of the credential gives %s, expected %d "
+                                 "(only an undelivered SUCCESS may give the record back)" % (kind, d and (d["error_num"], d["error_str"]), want),
+                          "kind": "undelivered-" + kind})
+
+
 def live_phase(ctx):
     try:
         exe, orc = credcorr.build_all(ctx)
@@ -22,7 +50,7 @@ def live_phase(ctx):
         ctx.violation(str(e), {"obligation": "build"}, found_input=False)
         return
     fails = []
-    dist = {"concurrent": 0, "same-second": 0, "no-consume": 0, "retry": 0}
+    dist = {"concurrent": 0, "same-second": 0, "no-consume": 0, "retry": 0, "undelivered": 0}
     for nthreads in ((1, 2, 8, 16) if ctx.thorough else (1, 2, 8)):
         cr = credcorr.CredRig(ctx, exe, orc, tag="c05t%d" % nthreads, nthreads=nthreads)
         if not cr.ok:
@@ -95,6 +123,7 @@ def live_phase(ctx):
                 d, m, diff = cr.decode_both(cred, uid=77, gid=1)
                 if d is None or d["error_num"] != 17:
                     fails.append({"why": "second valid decode was not reported as replayed: %s" % (d and d["error_num"])})
+            undelivered_phase(ctx, cr, fails, dist)
             # the documented exception: transport retries (retry 1..5) of an already-decoded credential
             r, _ = rig.encode(cr.d.sock, uid=11, gid=12, data=b"retry")
             cred = r["data"]
